@@ -64,6 +64,14 @@ Definition dec_pos (j : J) : option Z :=
 Definition dec_nat (j : J) : option nat :=
   match j with JI z => if 0 <=? z then Some (Z.to_nat z) else None | _ => None end.
 
+(* a batch size: every size beyond a million stands for "longer than any partition of a case"
+   (the harness sends usize::MAX as 2^61): one chunk per partition *)
+Definition dec_batch (j : J) : option nat :=
+  match j with
+  | JI z => if 0 <=? z then Some (Z.to_nat (Z.min z 1000000)) else None
+  | _ => None
+  end.
+
 Fixpoint dec_efun (j : J) : option efun :=
   match j with
   | JL [JS t] =>
@@ -199,8 +207,8 @@ Fixpoint dec_step (j : J) : option step :=
       else if tag_is t "filter_with_side" then obind2 (dec_vals a) (dec_spred b) SFilterWithSide
       else if tag_is t "map_with_side_map" then obind2 (dec_vals a) (jint b) SMapWithSideMap
       else if tag_is t "try_map" then obind2 (dec_efun a) (dec_pfun b) STryMap
-      else if tag_is t "map_batches" then obind2 (dec_nat a) (dec_bfun b) SMapBatches
-      else if tag_is t "map_values_batches" then obind2 (dec_nat a) (dec_bfun b) SMapValuesBatches
+      else if tag_is t "map_batches" then obind2 (dec_batch a) (dec_bfun b) SMapBatches
+      else if tag_is t "map_values_batches" then obind2 (dec_batch a) (dec_bfun b) SMapValuesBatches
       else None
   | JL [JS t; a; b; c] =>
       if tag_is t "combine_globally" then
